@@ -96,3 +96,42 @@ def random_masses(rng, shape, kind):
         a2 = np.array([rng.randint(1, 5) for _ in range(n)], dtype=float)
         a2 *= a1.sum() / a2.sum()
     return a1.reshape(shape), a2.reshape(shape)
+
+
+def solver_twins(ck, darsia, pid, quick, methods=("newton", "bregman")):
+    """Two Wasserstein solver objects on grids that agree in shape, cell / face counts (and voxel volume, or - in 1-D - face
+    area) and differ in the voxel sizes, set up and called along every interleaving of spec/TwoObjects.tla: each solves on ITS
+    grid (distance, flux and mass balance are compared with the configuration made and used alone)."""
+    import random
+    import warnings
+    from lib import twoobj
+    hists = twoobj.histories(ck)
+    tspecs = []
+    kinds = [((3, 4), [0.5, 2.0], [2.0, 0.5]), ((8,), [1.0 / 8], [3.0 / 8]), ((3, 5), [0.5, 0.5], [0.5, 0.5])]
+    for shape, ha, hb in kinds:
+        for method in methods:
+            sb = shape if shape != (3, 5) else (5, 3)        # (3,5) / (5,3): equal counts of cells, faces, matrix entries
+
+            def make(o, shape=shape, sb=sb, ha=ha, hb=hb, method=method):
+                s_, h_ = (shape, ha) if o == "a" else (sb, hb)
+                cls = darsia.WassersteinDistanceNewton if method == "newton" else darsia.WassersteinDistanceBregman
+                opts = {"num_iter": 8, "verbose": False, "return_info": True, "L": 1e-2 if method == "newton" else 1.0, "formulation": "pressure", "linear_solver": "direct"}
+                return (s_, h_, cls(darsia.Grid(s_, [float(x) for x in h_]), None, opts))
+
+            def use(o, obj):
+                s_, h_, w1 = obj
+                a1, a2 = random_masses(random.Random(11), s_, "dense")
+                i1, i2 = make_images(darsia, s_, h_, a1, a2)
+                with warnings.catch_warnings():
+                    warnings.simplefilter("ignore")
+                    with np.errstate(all="ignore"):
+                        d, info = w1(i1, i2)
+                return [np.array([float(d)]), np.asarray(info["flux"], dtype=float)]
+
+            def same(x, y):
+                return all(p_.shape == q_.shape and np.allclose(p_, q_, rtol=1e-6, atol=1e-9) for p_, q_ in zip(x, y))
+
+            sel = hists if not quick else [h for h in hists if len(h) <= 4][::2]
+            name = f"{method}-" + "x".join(map(str, shape))
+            tspecs.append((sel, name, make, use, same, "twin:" + name))
+    return twoobj.run(ck, pid, tspecs)
